@@ -629,3 +629,45 @@ def client_call_styles(sx, pname):
         ih = ih[0] if isinstance(ih, (list, tuple)) and ih else ih
         ok.append(ih is not None and ih.tid == want[0])
     return all(ok)
+
+
+# ---------------------------------------------------------------- request documents in other encodings than UTF-8
+@harness('C01', params=sorted(PROTS), functions=['spyne.protocol.soap.soap11._parse_xml_string',
+                                                'spyne.protocol.xml.XmlDocument.create_in_document'],
+         bounds={'encodings': 'the request document encoded as utf-8, iso-8859-1, windows-1252 or utf-16; the charset announced in the '
+                              'Content-Type header or not; the encoding declared in the XML declaration or not (combinations a '
+                              'conformant client can send); three texts with non-ASCII characters; through WsgiApplication'})
+def request_encodings(sx, pname):
+    """the characters the client sent are the characters the function receives and the response denotes, whatever
+    encoding the request document is in"""
+    import io
+    from lxml import etree
+    from spyne.server.wsgi import WsgiApplication
+    app, server = _client_app(pname)
+    enc = sx.choose('encoding', ['utf-8', 'iso-8859-1', 'windows-1252', 'utf-16'])
+    announce = sx.choose('charset_in_content_type', [True, False])
+    declare = sx.choose('encoding_declaration', [True, False])
+    s = sx.choose('text', [u'Zo\xeb', u'\xf1and\xfa \xe9', u'plain'])
+    if not declare and not announce and enc not in ('utf-8', 'utf-16'):
+        sx.outside('a document in a legacy encoding that says so nowhere is not conformant')
+    if enc == 'utf-16' and (announce or not declare):
+        sx.outside('UTF-16 is detected from the byte order mark; kept to the declared, unannounced spelling')
+    inner = u'<record xmlns="tns"><n>7</n><s>%s</s></record>' % s
+    if pname != 'XmlDocument':
+        inner = u'<e:Envelope xmlns:e="%s"><e:Body>%s</e:Body></e:Envelope>' % (SOAP_ENV[pname], inner)
+    doc = ((u'<?xml version="1.0" encoding="%s"?>' % enc) if declare else u'') + inner
+    body = doc.encode(enc)
+    ctype = 'text/xml' if pname != 'Soap12' else 'application/soap+xml'
+    if announce:
+        ctype += '; charset=%s' % enc
+    environ = {'REQUEST_METHOD': 'POST', 'PATH_INFO': '/', 'QUERY_STRING': '', 'SERVER_NAME': 'localhost', 'SERVER_PORT': '80',
+               'wsgi.url_scheme': 'http', 'wsgi.input': io.BytesIO(body), 'CONTENT_LENGTH': str(len(body)), 'CONTENT_TYPE': ctype}
+    CAP.clear()
+    status = []
+    out = b''.join(WsgiApplication(app)(environ, lambda st, h, e=None: status.append(st)))
+    sx.observe('status', status)
+    if not status[0].startswith('200') or 'args' not in CAP:
+        return False
+    root = etree.fromstring(out)
+    texts = [e.text for e in root.iter() if isinstance(e.tag, str) and etree.QName(e).localname == 'recordResult']
+    return CAP['args'][1] == s and texts == [s]
